@@ -74,7 +74,7 @@ def to_torch_marginals(m):
 
 
 def cases(rng, tier):
-    n = {"quick": 300, "thorough": 5000, "search": 1500}[tier]
+    n = {"quick": 600, "thorough": 5000, "search": 1500}[tier]
     out = []
     for _ in range(n):
         N = rng.choice([1, 2, 2, 3, 3, 3, 4])
